@@ -12,6 +12,7 @@ one() {
   start=$(date +%s)
   out=$(VERIF_SEED=$s ./check $c --tier $TIER 2>&1); rc=$?
   echo "seed=$s $c rc=$rc $(( $(date +%s) - start ))s :: $(echo "$out" | grep -E "VIOLATION|$TIER:" | tail -2 | tr '\n' ' ' | cut -c1-220)"
+  if [ $rc -ge 2 ]; then echo "$out" | tail -15 | sed "s/^/    [$c] /"; fi
 }
 export -f one
 for s in $SEEDS; do
